@@ -114,7 +114,15 @@ def run_all(ctx, focus):
         traces.append({"net": k + 1, "events": tr})
         probs.append(pb)
     files = {"TraceI.tla": dt.constants_module(descs, module="TraceI", extends="Trace_Dataflow"), "TraceI.cfg": dt.TRACE_CFG}
-    verdicts = trace.validate(ctx, "Dataflow", "TraceI", "TraceI.cfg", traces, files=files, dfs=True, timeout=2400)
+    verdicts = trace.validate(ctx, "Dataflow", "TraceI", "TraceI.cfg", traces, files=files, dfs=True, timeout=2400,
+                              extra_env={"IGNORE_DEPS": "0"})
+    # rejected traces: is provenance (the dependee sets) the only thing the specification cannot explain?
+    rej = [i for i, v in enumerate(verdicts) if not v["ok"] and v["reason"] == "rejected"]
+    if rej:
+        v2 = trace.validate(ctx, "Dataflow", "TraceI", "TraceI.cfg", [traces[i] for i in rej], files=files, dfs=True, timeout=2400,
+                            extra_env={"IGNORE_DEPS": "1"}, diagnose=False)
+        for i, w in zip(rej, v2):
+            verdicts[i]["provenance_only"] = bool(w["ok"])
     by_desc = {}
     for (d, sd, _, k), r, t, v, pb in zip(jobs, runs, traces, verdicts, probs):
         tr = t["events"]
@@ -146,8 +154,14 @@ def judge(ctx, focus, d, exp, r, tr, v, pb, dead):
         kind = (ev or {}).get("ev") if isinstance(ev, dict) else "end"
         prop = classify_rejection(v, ev)
         if prop == focus or (focus == "C04" and prop is None):
-            ctx.violation("trace-rejected:%s:%s:%s" % (v["reason"], kind, (ev or {}).get("step") if isinstance(ev, dict) else "-"),
-                          dict(detail, verdict=v, trace=tr), what)
+            if v.get("provenance_only") and isinstance(ev, dict):
+                kinds = {s0["name"]: s0["kind"] for s0 in dt.expand(d)["steps"]}
+                ctx.violation("provenance:dependees-differ-from-consumed-inputs:%s" % kinds.get(ev.get("step"), "?"), dict(detail, verdict=v, trace=tr),
+                              "token %s@%s emitted by %s of %s is linked to %s, which is not the set of tokens it was computed from" % (
+                                  ev.get("port"), ev.get("tag"), ev.get("step"), name, ev.get("deps")))
+            else:
+                ctx.violation("trace-rejected:%s:%s:%s" % (v["reason"], kind, (ev or {}).get("step") if isinstance(ev, dict) else "-"),
+                              dict(detail, verdict=v, trace=tr), what)
         else:
             ctx.count("rejections_owned_by_%s" % (prop or "C04"))
         return
@@ -209,9 +223,16 @@ def judge(ctx, focus, d, exp, r, tr, v, pb, dead):
                 for i in e["inputs"]:
                     want.add((i, e["id"]))
         got = set(map(tuple, prov_db))
-        if got != want:
-            ctx.violation("provenance-table-differs-from-recorded-emissions", dict(detail, missing=sorted(want - got)[:10], extra=sorted(got - want)[:10]),
-                          "provenance table of %s: %d rows missing, %d extra" % (name, len(want - got), len(got - want)))
+        # rows of an emission that a cancellation aborted between add_provenance and the put are legitimate extras:
+        # their depender was never put on a port (the statement is about emitted tokens)
+        put_ids = {e.get("id") for e in r["events"] if e["ev"] == "put" and e.get("id") is not None}
+        extra = {(a, b) for (a, b) in got - want if b in put_ids}
+        aborted = {(a, b) for (a, b) in got - want if b not in put_ids}
+        if aborted:
+            ctx.count("provenance_rows_of_aborted_emissions", len(aborted))
+        if want - got or extra:
+            ctx.violation("provenance-table-differs-from-recorded-emissions", dict(detail, missing=sorted(want - got)[:10], extra=sorted(extra)[:10]),
+                          "provenance table of %s: %d rows missing, %d extra" % (name, len(want - got), len(extra)))
         for a, b in got:
             if not (a in toks_db and b in toks_db):
                 ctx.violation("provenance-edge-to-unpersisted-token", dict(detail, edge=[a, b]), "edge %s->%s names a token that is not in the token table" % (a, b))
@@ -230,7 +251,7 @@ def classify_rejection(v, ev):
         return "C07"
     if isinstance(ev, dict) and ev.get("ev") == "rawput":
         return "C07"
-    if isinstance(ev, dict) and ev.get("ev") == "emit" and ev.get("_deps_only"):
+    if v.get("provenance_only"):
         return "C07"
     return None
 
@@ -245,5 +266,9 @@ def replay(ctx, data, focus):
     ctx.require("harness_error" not in r, str(r.get("harness_error")))
     tr, pb = dt.to_trace(d, r)
     files = {"TraceI.tla": dt.constants_module([d], module="TraceI", extends="Trace_Dataflow"), "TraceI.cfg": dt.TRACE_CFG}
-    v = trace.validate(ctx, "Dataflow", "TraceI", "TraceI.cfg", [{"net": 1, "events": tr}], files=files, dfs=True)[0]
+    v = trace.validate(ctx, "Dataflow", "TraceI", "TraceI.cfg", [{"net": 1, "events": tr}], files=files, dfs=True, extra_env={"IGNORE_DEPS": "0"})[0]
+    if not v["ok"] and v["reason"] == "rejected":
+        w = trace.validate(ctx, "Dataflow", "TraceI", "TraceI.cfg", [{"net": 1, "events": tr}], files=files, dfs=True,
+                           extra_env={"IGNORE_DEPS": "1"}, diagnose=False)[0]
+        v["provenance_only"] = bool(w["ok"])
     judge(ctx, focus, d, dt.expected(d), r, tr, v, pb, "dead-end" in d.get("classes", []))
